@@ -17,6 +17,9 @@ CHECKS = {
  "C03": dict(tech="runtime monitoring: differential check against a self-certifying exact reference simplex (Bland, Fractions) incl. a sampled/enumerated tiny family",
              text="status and exact optimal value compared with certified truth for every generated well-formed LP of moderate size",
              note="reach bounded by the reference solver size (<=16x22) and moderate bit sizes"),
+ "C04": dict(tech="runtime monitoring: metamorphic comparison of many drives of one LP (entry point x pricing x scaling x precision x warm start x repeated solves) under sanitizers",
+             text="all definitive (status, exact value) pairs observed for the same LP must coincide; explored groups only",
+             note="non-definitive stops (iteration limits, UNSOLVED of the pure rational simplex) are excluded as the statement allows"),
 }
 ENGINES = [
  dict(name="qsdrive", path="harness/qsdrive.c", serves_properties=sorted(CHECKS), kind_free_text="script interpreter over the public API writing a before/after event log; built per flavour (gcc ASan+UBSan, plain) from /repo's working tree by build/mkbuild.py"),
